@@ -356,6 +356,8 @@ def units(tier):
     wrap("C02.step.element_dispatch_adds_the_same_amount_to_exactly_one_accumulator", DP.unit_dispatch)
     from props import c02_reset as RS
     wrap("C02.reset.mineral_transfer_is_conservative", RS.unit_reset_transfer)
+    from props import c03_build as _BD
+    wrap("C02.build_pure_phases.each_element_charged_to_its_own_balance", lambda twin=False: _rename(_BD.unit_mineral_elements(twin), "C02.build_pure_phases.each_element_charged_to_its_own_balance"))
     for fname, lo in (("add_ss_assemblage", 1), ("add_pp_assemblage", 0)):
         def g(fname=fname, lo=lo):
             r = unit_formula_workspace(fname, lo)
